@@ -94,7 +94,7 @@ def mutate_json(r, tree):
 
 
 def run(ctx):
-    b = lib.standard_build(ctx)
+    b = lib.standard_build(ctx, theorems=False)   # no Coq theorem for this property yet: see MANIFEST level
     if not lib.require_builds(ctx, b):
         return
     r = ctx.rng
@@ -202,7 +202,7 @@ def run(ctx):
         ('policy-json', '{"effect":"permit","principal":{"op":"All"},"action":{"op":"All"},"resource":{"op":"All"},"conditions":[{"kind":"when","body":' + '{"!":{"arg":' * 9000 + '{"Value":true}' + '}}' * 9000 + '}]}'),
         ('policy-json', '[' * deep), ('value-json', '[' * deep + ']' * deep), ('value-json', '{"a":' * deep + '1' + '}' * deep),
         ('value-json', '[' * 9000 + ']' * 9000), ('entitymap-json', '[{"uid":{"type":"A","id":"a"},"parents":[],"attrs":{"x":' + '[' * 9000 + ']' * 9000 + '},"tags":{}}]'),
-        ('schema-text', 'entity A { a: ' + 'Set<' * deep + 'Long' + '>' * deep + ' };'), ('schema-text', 'entity A { a: ' + '{ a: ' * deep + 'Long' + ' }' * deep + ' };'),
+        ('schema-text', 'entity A { a: ' + 'Set<' * deep + 'Long' + '>' * deep + ' };'), ('schema-text', 'entity A { a: ' + '{ a: ' * 5000 + 'Long' + ' }' * 5000 + ' };'),   # rendering indents per level: output is quadratic in depth (F38, see DESIGN)
         ('schema-text', 'namespace A { ' * deep + '}' * deep), ('schema-text', 'entity A in [' + 'A,' * deep + 'A];'),
         ('schema-json', '{"":{"entityTypes":{"A":{"shape":' + '{"type":"Set","element":' * 9000 + '{"type":"Long"}' + '}' * 9000 + '}},"actions":{}}}'),
         ('uid-text', 'A::' * deep + '"a"'),
